@@ -88,12 +88,38 @@ func runC12(c *report.Ctx) {
 			c.Lost("keystore.ErrGapLimit")
 		}
 		// derivation sites: Child(nextIndex) inside a loop
-		var derive []ssa.Instruction
-		for _, s := range calls(na, child) {
-			if loopHeaderOf(s.Block()) != nil {
-				derive = append(derive, s)
+		// (the Child call itself, or a call of a keystore helper that derives — the inner retry loop may be factored out)
+		var derivesIn func(g *ssa.Function, depth int) bool
+		derivesIn = func(g *ssa.Function, depth int) bool {
+			if g == nil || g.Blocks == nil || depth > 2 {
+				return false
 			}
+			if len(calls(g, child)) > 0 {
+				return true
+			}
+			found := false
+			an.Instrs(g, func(in ssa.Instruction) {
+				if cc := an.CallOf(in); cc != nil && !found {
+					if cal := cc.StaticCallee(); cal != nil && cal != g && an.FuncPkg(cal) != nil && an.FuncPkg(cal).Path() == pkgKeystore && derivesIn(cal, depth+1) {
+						found = true
+					}
+				}
+			})
+			return found
 		}
+		var derive []ssa.Instruction
+		an.Instrs(na, func(in ssa.Instruction) {
+			cc := an.CallOf(in)
+			if cc == nil || loopHeaderOf(in.Block()) == nil {
+				return
+			}
+			cal := cc.StaticCallee()
+			if cal == child {
+				derive = append(derive, in)
+			} else if cal != nil && cal != na && an.FuncPkg(cal) != nil && an.FuncPkg(cal).Path() == pkgKeystore && derivesIn(cal, 1) {
+				derive = append(derive, in)
+			}
+		})
 		if len(derive) == 0 {
 			c.Fail(sk(na)+":derive", "anchor lost: no derivation loop", p.Pos(na.Pos()))
 		}
